@@ -351,6 +351,33 @@ def rule_P4(ctx):
                   ctx.where(mod, n))
 
 
+def rule_P3_injective(ctx):
+    """Two different tasks must never get the same file: the file name is a
+    function of (what, source key, frequency key) that has to be injective.
+    Joining free-form keys with a character that may occur in the keys
+    (`S1` + `lo_f` and `S1_lo` + `f`) is not."""
+    mod = ctx.repo.mod(SIMS)
+    df = mod.method('Simulation', '_data_or_file')
+    fs = [n for n in ast.walk(df) if isinstance(n, ast.JoinedStr)]
+    ctx.anchor(len(fs) == 1, 'file-name f-string in _data_or_file')
+    parts = fs[0].values
+    seps = [p.value for p in parts if isinstance(p, ast.Constant)]
+    nvar = sum(isinstance(p, ast.FormattedValue) for p in parts)
+    # keys are validated somewhere against the separator?
+    su = ctx.repo.mod('emg3d/surveys.py')
+    validated = any(isinstance(n, ast.Raise) and ("'_'" in ast.unparse(
+        au.enclosing(n, ast.If).test if au.enclosing(n, ast.If) else n))
+        for n in ast.walk(su.tree))
+    indexed = all(isinstance(p.value, ast.Call) or 'index' in ast.unparse(
+        p.value) for p in parts if isinstance(p, ast.FormattedValue))
+    ctx.check('C11.P3.names', 'file names are injective in (source, '
+              'frequency)', validated or indexed or nvar < 3,
+              f'names are built as {ast.unparse(fs[0])} from user-chosen keys '
+              f'joined by {seps[:2]}: different (source, frequency) pairs can '
+              'give the same file, so one slot receives the result of '
+              'another task', ctx.where(mod, fs[0]))
+
+
 def rule_P4_inputs(ctx):
     """Source and grid objects are shared by all tasks of a sequential run
     and re-created per task in worker processes / file mode: a function of
@@ -399,3 +426,4 @@ def run(ctx):
     rule_P3_worker(ctx)
     rule_P4(ctx)
     rule_P4_inputs(ctx)
+    rule_P3_injective(ctx)
